@@ -4,7 +4,7 @@ LEAN_MODULE = "Hw.Props.C02"
 NS = "Hw.Props.C02."
 THEOREMS = [NS + t for t in """C02_step_wf C02_history_wf C02_allow_einval_unchanged C02_allow_only_allowed_sets C02_objects_stable
 C02_infos_remove C02_infos_replace C02_infos_add C02_infos_add_unique C02_infos_einval
-C02_insert_conserves_objects C02_insert_preserves_laminar C02_group_insert C02_group_insert_wf C02_refused_insert_unchanged C02_insert_keeps_order C02_laminar_check_sound""".split()]
+C02_insert_conserves_objects C02_insert_preserves_laminar C02_group_insert C02_group_insert_wf C02_refused_insert_unchanged C02_insert_keeps_order C02_reorder_sorts C02_laminar_check_sound""".split()]
 TRUSTED = ["harness/dump.h + lean/Driver/Topo.lean (dump and its parser); lean/Driver/History.lean (per-step judgement: WF oracle, model prediction, unchanged-on-failure, gp/type stability); userdata stability is checked in C by the harness",
            "Group insertion: the tree shape after hwloc_topology_insert_group_object (parents, order, merge decisions, moved memory children) is PREDICTED by the model of hwloc___insert_object_by_cpuset (lean/Hw/Topo/Insert.lean) and compared with the real dump; the theorems hold for laminar trees, and the driver evaluates the (proved sound) laminarity check on every real tree before the call", "PARTIAL: restrict, Misc insertion, distances grouping, memattr/cpukind registration, refresh are not predicted by the model; after each such call the real topology is judged by the proved WF oracle and the stability relations"]
 ASSUMPTIONS = ["topologies: synthetic presets and bundled XML files (<= 400 objects), with/without INCLUDE_DISALLOWED, three filter presets; histories of 2-10 calls"]
